@@ -267,21 +267,24 @@ Proof. reflexivity. Qed.
 Lemma af_hasData args : apply_func (fn_name FHasData) args = Ok (FVal (VBool true)).
 Proof. reflexivity. Qed.
 
+Lemma orel_impl_eq {A} (so io io' : outcome A) : io = io' -> orel so io' -> orel so io.
+Proof. intros ->. auto. Qed.
+
 Ltac err_ok := solve [ cbn; eauto | exact I | reflexivity ].
 
-Theorem apply_rel f args : existsb (Nat.eqb (length args)) (fn_arities f) = true ->
+Theorem apply_rel f args :
   orel (r <- apply_fn_spec f args ;; Ok (fres_of r)) (apply_func (fn_name f) args).
 Proof.
-  intros Har. destruct f.
-  - (* isNonnull *) rewrite af_isNonnull. destruct args as [|v [|? ?]]; arity_absurd Har.
-    cbn. rewrite null_or_undef_nullish. reflexivity.
-  - (* length *) rewrite af_length. destruct args as [|v [|? ?]]; arity_absurd Har.
-    destruct v; err_ok.
-  - (* keys *) rewrite af_keys. destruct args as [|v [|? ?]]; arity_absurd Har.
-    destruct v; err_ok.
-  - (* augmentMap *) rewrite af_augmentMap. destruct args as [|v [|v2 [|? ?]]]; arity_absurd Har.
-    destruct v; try err_ok; destruct v2; err_ok.
-  - (* round *) rewrite af_round. destruct args as [|v [|v2 [|? ?]]]; arity_absurd Har.
+  destruct f.
+  - (* isNonnull *) eapply orel_impl_eq; [apply af_isNonnull|]. destruct args as [|v [|? ?]]; try err_ok.
+    all: try (destruct v; reflexivity).
+  - (* length *) eapply orel_impl_eq; [apply af_length|]. destruct args as [|v [|? ?]]; try err_ok.
+    all: try (destruct v; err_ok).
+  - (* keys *) eapply orel_impl_eq; [apply af_keys|]. destruct args as [|v [|? ?]]; try err_ok.
+    all: try (destruct v; err_ok).
+  - (* augmentMap *) eapply orel_impl_eq; [apply af_augmentMap|]. destruct args as [|v [|v2 [|? ?]]]; try err_ok.
+    all: try (destruct v; try err_ok; destruct v2; err_ok).
+  - (* round *) eapply orel_impl_eq; [apply af_round|]. destruct args as [|v [|v2 [|? ?]]]; try err_ok.
     + apply round1_rel.
     + destruct v2; try (destruct v; err_ok).
       cbn [apply_fn_spec].
@@ -290,32 +293,41 @@ Proof.
         pose proof (round_rel x) as Hr.
         destruct (round_half_away x) as [r| | | | |]; cbn in *; try exact I; exact Hr.
       * destruct Hv as [m' ->]. cbn. eauto.
-  - (* floor *) rewrite af_floor. destruct args as [|v [|? ?]]; arity_absurd Har.
+    + destruct v2; try err_ok; destruct v; err_ok.
+  - (* floor *) eapply orel_impl_eq; [apply af_floor|]. destruct args as [|v [|? ?]]; try err_ok.
+    2: (destruct v; err_ok).
     destruct v; try err_ok.
     cbn. destruct (fl_floor_Z f) as [z|]; [|exact I].
     unfold int_result. destruct (in_int64 z) eqn:Hz; cbn; [|exact I]. rewrite (wrap64_id _ Hz). reflexivity.
-  - (* ceiling *) rewrite af_ceiling. destruct args as [|v [|? ?]]; arity_absurd Har.
+  - (* ceiling *) eapply orel_impl_eq; [apply af_ceiling|]. destruct args as [|v [|? ?]]; try err_ok.
+    2: (destruct v; err_ok).
     destruct v; try err_ok.
     cbn. destruct (fl_ceil_Z f) as [z|]; [|exact I].
     unfold int_result. destruct (in_int64 z) eqn:Hz; cbn; [|exact I]. rewrite (wrap64_id _ Hz). reflexivity.
-  - (* min *) rewrite af_min. destruct args as [|a [|c [|? ?]]]; arity_absurd Har.
-    destruct a; try (destruct c; apply min_float_rel).
-    destruct c; try apply min_float_rel.
-    cbn. rewrite zmin_ltb. reflexivity.
-  - (* max *) rewrite af_max. destruct args as [|a [|c [|? ?]]]; arity_absurd Har.
-    destruct a; try (destruct c; apply max_float_rel).
-    destruct c; try apply max_float_rel.
-    cbn. rewrite zmax_gtb. reflexivity.
-  - (* randomInt *) rewrite af_randomInt. destruct args as [|v [|? ?]]; arity_absurd Har.
-    destruct v; try err_ok. cbn. destruct (z <=? 0)%Z; err_ok.
-  - (* strContains *) rewrite af_strContains. destruct args as [|a [|c [|? ?]]]; arity_absurd Har.
-    destruct a; try err_ok; destruct c; try err_ok.
-    cbn. rewrite contains_infix. reflexivity.
-  - (* range *) rewrite af_range. destruct args as [|a [|c [|d [|? ?]]]]; arity_absurd Har.
-    + destruct a; try err_ok. cbn. unfold range_values. rewrite count_up_range, Z.sub_0_r. reflexivity.
+  - (* min *) eapply orel_impl_eq; [apply af_min|]. destruct args as [|a [|c [|? ?]]]; try err_ok.
+    + destruct a; err_ok.
+    + destruct a; try (destruct c; apply min_float_rel).
+      destruct c; try apply min_float_rel.
+      cbn. rewrite zmin_ltb. reflexivity.
+    + destruct a; try err_ok; destruct c; err_ok.
+  - (* max *) eapply orel_impl_eq; [apply af_max|]. destruct args as [|a [|c [|? ?]]]; try err_ok.
+    + destruct a; err_ok.
+    + destruct a; try (destruct c; apply max_float_rel).
+      destruct c; try apply max_float_rel.
+      cbn. rewrite zmax_gtb. reflexivity.
+    + destruct a; try err_ok; destruct c; err_ok.
+  - (* randomInt *) eapply orel_impl_eq; [apply af_randomInt|]. destruct args as [|v [|? ?]]; try err_ok.
+    all: try (destruct v; try err_ok; cbn; destruct (z <=? 0)%Z; err_ok).
+  - (* strContains *) eapply orel_impl_eq; [apply af_strContains|]. destruct args as [|a [|c [|? ?]]]; try err_ok.
+    all: try (destruct a; try err_ok; destruct c; try err_ok; cbn; rewrite contains_infix; reflexivity).
+  - (* range *) eapply orel_impl_eq; [apply af_range|]. destruct args as [|a [|c [|d [|? ?]]]]; try err_ok.
+    + destruct a; try err_ok.
+      all: try (cbn [apply_fn_spec bind fres_of]; unfold range_values; rewrite ?count_up_range, ?Z.sub_0_r; reflexivity).
     + destruct a; try err_ok; destruct c; try err_ok.
-      cbn. unfold range_values. rewrite count_up_range. reflexivity.
+      all: try (cbn [apply_fn_spec bind fres_of]; unfold range_values; rewrite ?count_up_range; reflexivity).
     + destruct a; try err_ok; destruct c; try err_ok; destruct d; try err_ok.
-      cbn. destruct (z1 <=? 0)%Z; [err_ok|]. cbn. unfold range_values. rewrite count_up_range. reflexivity.
-  - (* hasData *) rewrite af_hasData. destruct args as [|? ?]; arity_absurd Har. reflexivity.
+      all: try (cbn [apply_fn_spec]; destruct (z1 <=? 0)%Z; [err_ok|];
+                cbn [bind fres_of]; unfold range_values; rewrite ?count_up_range; reflexivity).
+    + destruct a; try err_ok; destruct c; try err_ok; destruct d; err_ok.
+  - (* hasData *) eapply orel_impl_eq; [apply af_hasData|]. reflexivity.
 Qed.
